@@ -42,6 +42,9 @@ fn files_for(cfg: &Config, t: usize, big: bool) -> Vec<(String, Vec<u8>)> {
     // names with bytes >= 0x80: the published hash works on bytes and folds ASCII only
     v.push(("Dir\\\u{dc}n\u{ef}-c\u{f6}d\u{e9} \u{b5}.txt".to_string(), gen::content(gen::TEXTURES[t], 37, cfg.sector(), 98)));
     v.push(("\u{4e16}\u{754c}\\\u{1f600}.bin".to_string(), gen::content(gen::TEXTURES[t], cfg.sector() + 5, cfg.sector(), 97)));
+    // every printable ASCII character that is neither a letter, a digit nor a separator: the published fold
+    // changes a-z and '/' only (0x60 '`' and 0x7B..0x7E sit right next to the letter ranges)
+    v.push(("Punct\\ `{|}~@[]^_!#$%&'()+,-.=x.txt".to_string(), gen::content(gen::TEXTURES[t], 21, cfg.sector(), 96)));
     if cfg.shift == 0 {
         // compression break-even sweep: one sector of k incompressible bytes followed by zeros, for every k in
         // a window around the point where method byte + payload is exactly as long as the plain sector
